@@ -125,13 +125,19 @@ def main(tier):
     # "no update is lost": goroutines incrementing two existing keys through Update, next to readers
     ccases = [{"id": "counter_%s_%d" % (kind, i), "kind": kind, "goroutines": g, "counter": 3000 if thorough else 1500, "seed": sd + i}
               for kind in KINDS for i, g in enumerate((2, 4, 8))]
+    ccases += [{"id": "stringset_%d" % i, "kind": "StringSet", "goroutines": g, "counter": 400, "seed": sd + i} for i, g in enumerate((2, 4, 8, 16))]
     cobs = harness("omap", ccases)
     for c in ccases:
         o = cobs[c["id"]]
         chk.evaluations += 1
         chk.traces += 1
         chk.nontrivial.add(c["id"])
-        if o.get("panic") or o.get("lost_updates"):
+        if o.get("outcome") == "fatal":
+            sig = {"what": "fatal", "kind": c["kind"]}
+            chk.violation("collection %s under concurrent use: the process died: %s" % (c["kind"], o.get("panic", "")[:300]),
+                          {"kind": "omap_counter", "case": c, "observed": o, "signature": sig}, sig)
+            continue
+        if o.get("panic") or o.get("lost_updates") or o.get("dup_reads"):
             sig = {"what": "lost update", "kind": o["kind"]}
             chk.violation("collection %s: %d of %d updates are lost (%s) %s" % (o["kind"], o.get("lost_updates", 0), o.get("reads", 0), o.get("example", ""), o.get("panic", "")),
                           {"kind": "omap_counter", "case": c, "observed": o, "signature": sig}, sig)
